@@ -184,7 +184,11 @@ def unit_bad(a):
 # ------------------------------------------------------------------ expected lists (static part)
 def unit_expected(a):
     stats = Stats()
-    py = tables.python_dynamic()["states"]
+    try:
+        py = tables.python_dynamic()["states"]
+    except Violation as v:
+        stats.fail(v.case, v.message)
+        return stats
     sib, _ = sibling_table()
     for s in tables.STATES:
         case = {"sub": "expected", "state": s}
